@@ -1,4 +1,5 @@
 """C15 - the IR command built is the stored code that best matches the request (DESIGN.md 4/C15)"""
+from .common import frame_ok as _frame_ok
 import itertools
 import z3
 
@@ -66,7 +67,7 @@ def command_obligations(ip, ctx, base, ob, W, key):
     """the built command must carry W[key]; building it must not leave anything behind on the remote (a remembered command
     would make a later call with another previous state wrong)"""
     obs = [Obligation(base + "/returns_command", ctx, ob[0] == "ret", note=str(ob[1]) if ob[0] == "exc" else ""),
-           Obligation(base + "/assigns_nothing", ctx, not ctx.ghost.heap_writes and not ctx.ghost.module_writes,
+           Obligation(base + "/assigns_nothing", ctx, _frame_ok(ctx)[0],
                       note=str([(type(o).__name__, a) for o, a in ctx.ghost.heap_writes][:2]))]
     if ob[0] != "ret":
         return obs
